@@ -745,6 +745,23 @@ def rule_graph_search(ctx):
         R.ob('E6-check-then-mark', body.path, good, 'a popped node is expanded / yielded only if it was not visited, and is marked visited first (each reachable node once)' if good
              else 'a node can be expanded or yielded without the visited test, or without being marked (duplicates / missing nodes)', ctx.where(body), props=('C11', 'C05'))
     R.floor('E6', 'searches with a visited set', n, 3, props=('C11',))
+    # the descendant iterators start from the children of the given node and walk children only
+    for name in ('descendants', 'descendants_unsorted'):
+        db = F.body_by_path(G + name)
+        if db is None:
+            R.missing('E6-init', name, 'not found', props=('C11',))
+            continue
+        used = set()
+        for x in F.with_closures(db):
+            used |= {nn for a, nn in fields_used(F, x) if a == g['noderec'] and nn in g['adj_fields']}
+        idx = [c for c in db.calls.values() if c.name in ('index', 'get') and any(('f', g['node_info']) in o.path for o in db.orig_operand(c.args[0]))]
+        from_param = bool(idx) and all(is_param(strip_path(db.orig_operand(c.args[1])), 2) for c in idx if not any(x.kind == 'Closure' for x in [db]))
+        good = used == {g['children']} and from_param
+        R.ob('E6-init', G + name, good, '%s starts from the children of the given node' % name if good else '%s starts from %s of %s' % (name, sorted(used), 'the given node' if from_param else 'another node'), ctx.where(db), props=('C11',))
+    for body in graph_bodies(ctx):
+        if body.name == 'next' and body.impl_self and 'Descendants' in body.impl_self:
+            used = {nn for a, nn in fields_used(F, body) if a == g['noderec'] and nn in g['adj_fields']}
+            R.ob('E6-walk', body.path, used == {g['children']}, 'the iterator expands children' if used == {g['children']} else 'the iterator expands %s' % sorted(used), ctx.where(body), props=('C11',))
     # sorted descendants: min-heap through Reverse(rank of the pushed node)
     n = 0
     for body in graph_bodies(ctx):
